@@ -219,6 +219,27 @@ static int scen_cfg(const char *family, int idx, runcfg *c)
       snprintf(c->scen, sizeof(c->scen), "silence-grid %d fs=%d ch=%d app=%d q=%d cx=%d vbr=%d", idx, c->fs, c->ch, c->app, c->q, c->cx, c->vbr);
       return 1;
    }
+   if (!strcmp(family, "budget-boundary")) {
+      /* the low-budget guard of opus_encode_native (src/opus_encoder.c:1267-1268) at its boundaries, for every frame
+         duration: bitrate = 3*8*frame_rate -1/0/+1, buffer 2/3/4 bytes, and for packets longer than 20 ms bitrate
+         2400 -1/0/+1 and buffer*frame_rate around 300; DTX off and on, VBR and CBR.  Returns -1 for combinations that
+         do not exist (the long-frame rules for frame_rate >= 50). */
+      int q, v, dtx, vbr, fr, i = idx;
+      if (idx < 0 || idx >= 9 * 11 * 4) return 0;
+      vbr = i % 2; i /= 2; dtx = i % 2; i /= 2; v = i % 11; i /= 11; q = QS[i % 9];
+      fr = 400 / q;
+      if (v >= 6 && fr >= 50) return -1;
+      c->fs = 48000; c->ch = 1; c->app = OPUS_APPLICATION_AUDIO; c->cx = 5; c->vbr = vbr; c->dtx = dtx; c->q = q;
+      c->out_bytes = 1276; c->ubr = 64000;
+      if (v < 3) c->ubr = 24 * fr + (v - 1);
+      else if (v < 6) c->out_bytes = v - 1;                               /* 2, 3, 4 */
+      else if (v < 9) c->ubr = 2400 + (v - 7);
+      else c->out_bytes = (300 + fr - 1) / fr - (v == 9 ? 1 : 0);      /* max_data_bytes*frame_rate just below / at 300 */
+      if (c->ubr < 500) c->ubr = 500;
+      c->nseg = 1; c->seg_ms[0] = 240; c->seg_active[0] = 1;
+      snprintf(c->scen, sizeof(c->scen), "budget-boundary %d fs=48000 ch=1 q=%d frame_rate=%d bitrate=%d out=%d dtx=%d vbr=%d", idx, q, fr, c->ubr, c->out_bytes, dtx, vbr);
+      return 1;
+   }
    if (!strcmp(family, "low-budget-gray")) {
       /* DTX off, 60 ms packets, 64 kb/s VBR, 18-byte buffer: 6 bytes per 20 ms would fit, yet the code's
          300 bytes/s rule (src/opus_encoder.c:1267) emits 2-byte PLC packets */
@@ -839,7 +860,9 @@ int main(int argc, char **argv)
       if (stride < 1) stride = 1;
       for (i = from; i < to; i += stride) {
          long v0 = S.violations;
-         if (!scen_cfg(argv[2], i, &pc)) break;
+         int rc = scen_cfg(argv[2], i, &pc);
+         if (rc == 0) break;
+         if (rc < 0) continue;
          do_run(0x5ce0000u + (unsigned)i, 0, &pc);
          S.scen_runs++;
          if (!g_tie && S.violations > v0) printf("# violating scenario %s\n", pc.scen);
